@@ -202,7 +202,11 @@ func matchRes(exp ref.Exp, got fx.Res, b *bij) error {
 						break
 					}
 					end := from + k + len(part)
-					if end == len(rest) || rest[end] == '\n' {
+					// ... and it is the whole last segment of that line: wrapping layers put "<context>: " in front of a
+					// message, they do not extend it (an empty message would otherwise be found at the end of any text)
+					start := from + k
+					whole := start == 0 || rest[start-1] == '\n' || strings.HasSuffix(rest[:start], ": ")
+					if whole && (end == len(rest) || rest[end] == '\n') {
 						found = end
 						break
 					}
